@@ -197,6 +197,7 @@ static void ep_map_swift_impl(ep_t p, const uint8_t *random, size_t len) {
 	ctx_t *ctx = core_get();
 	bn_t k;
 	uint8_t s;
+	int infty = 0;
 
 	bn_null(k);
 	fp_null(v);
@@ -291,7 +292,7 @@ static void ep_map_swift_impl(ep_t p, const uint8_t *random, size_t len) {
 			fp_mul(d[2], d[2], h[5]);
 
 			if (fp_is_zero(d[0]) || fp_is_zero(d[1]) || fp_is_zero(d[2])) {
-				ep_set_infty(p);
+				infty = 1;
 			} else {
 				if (ep_curve_opt_a() == RLC_ONE) {
 					/* n2 = 4(16h0 + h7). */
@@ -378,7 +379,7 @@ static void ep_map_swift_impl(ep_t p, const uint8_t *random, size_t len) {
 				fp_dbl(w, w);
 
 				if (fp_is_zero(w)) {
-					ep_set_infty(p);
+					infty = 1;
 				} else {
 					fp_inv(w, w);
 					fp_mul(p->x, x1, w);
@@ -391,27 +392,33 @@ static void ep_map_swift_impl(ep_t p, const uint8_t *random, size_t len) {
 			}
 		}
 
-		ep_rhs(p->y, p->x);
-		ep_rhs(v, x2);
-		ep_rhs(w, x3);
+		if (infty) {
+			/* Exceptional input (a denominator vanishes): x2 and x3 were never
+			 * computed, return the point at infinity. */
+			ep_set_infty(p);
+		} else {
+			ep_rhs(p->y, p->x);
+			ep_rhs(v, x2);
+			ep_rhs(w, x3);
 
-		int c2 = fp_is_sqr(v);
-		int c3 = fp_is_sqr(w);
+			int c2 = fp_is_sqr(v);
+			int c3 = fp_is_sqr(w);
 
-		fp_copy_sec(p->y, v, c2);
-		fp_copy_sec(p->x, x2, c2);
-		fp_copy_sec(p->y, w, c3);
-		fp_copy_sec(p->x, x3, c3);
+			fp_copy_sec(p->y, v, c2);
+			fp_copy_sec(p->x, x2, c2);
+			fp_copy_sec(p->y, w, c3);
+			fp_copy_sec(p->x, x3, c3);
 
-		if (!fp_srt(p->y, p->y)) {
-			RLC_THROW(ERR_NO_VALID);
+			if (!fp_srt(p->y, p->y)) {
+				RLC_THROW(ERR_NO_VALID);
+			}
+			fp_neg(w, p->y);
+			fp_copy_sec(p->y, w, fp_is_even(p->y) ^ s);
+			fp_set_dig(p->z, 1);
+			p->coord = BASIC;
+			/* Multiply by cofactor. */
+			ep_mul_cof(p, p);
 		}
-		fp_neg(w, p->y);
-		fp_copy_sec(p->y, w, fp_is_even(p->y) ^ s);
-		fp_set_dig(p->z, 1);
-		p->coord = BASIC;
-		/* Multiply by cofactor. */
-		ep_mul_cof(p, p);
 	}
 	RLC_CATCH_ANY {
 		RLC_THROW(ERR_CAUGHT);
